@@ -3,6 +3,7 @@ import RtcVerif.Model.C04Json
 import RtcVerif.Model.C02KeepSoft
 import RtcVerif.Proofs.C04Store
 import RtcVerif.Proofs.C02Loop
+import RtcVerif.Proofs.C02Fold
 import RtcVerif.Proofs.C02KeepSoft
 import RtcVerif.Proofs.C02Example
 import Mathlib.Algebra.Order.Field.Basic
@@ -79,7 +80,7 @@ theorem store_monotone (o : HOpts) (n : Nat) (oracle : Store → List Goal → O
 
 /-! ## no degradation -/
 
-/-- **`C02_no_degradation`** (multi-pass).  For every list of priorities, every option set with
+/-- **`C02_no_degradation_nofold`** (multi-pass, exact: no folding slack).  For every list of priorities, every option set with
     non-negative relaxations, and *every* solver oracle that, when it answers, answers with a point
     satisfying the store rows and the soft rows of the priority (`SatStore`, `SoftOK`): in the run
     of the loop, for all solved priorities `a < b` and every non-critical goal `g` of priority `a`,
@@ -92,7 +93,7 @@ theorem store_monotone (o : HOpts) (n : Nat) (oracle : Store → List Goal → O
     priority (`updateBounds_other_within_hull`) and otherwise up to `equality_threshold/2`.
     `Sane`: what validation guarantees (range finite, targets inside, relaxation ≥ 0) and one
     nominal per function key (finding candidate F25 otherwise). -/
-theorem C02_no_degradation (o : HOpts) (n : Nat) (nomOf : String → Rat)
+theorem C02_no_degradation_nofold (o : HOpts) (n : Nat) (nomOf : String → Rat)
     (oracle : Store → List Goal → Option Sol) (prios : List (List Goal))
     (hvr : 0 ≤ o.violationRelaxation) (hcr : 0 ≤ o.constraintRelaxation)
     (hsane : ∀ gs ∈ prios, ∀ g ∈ gs, g.critical = false → Sane nomOf g)
@@ -226,6 +227,119 @@ theorem C02_retained_minimisation (o : HOpts) (nomOf : String → Rat) (g : Goal
     have b := (div_le_div_iff_of_pos_right hpos).1 h2
     exact le_antisymm b a
 
+/-! ## no degradation, equality folding included, all members and both stores -/
+
+/-- **`C02_no_degradation`** (multi-pass, full strength).  The loop runs over a family of
+    independent stores `ι` (ensemble members × {point, path} store; `n j` steps each), one solver
+    call per priority for all of them.  For every list of priorities, every option set with
+    non-negative relaxations and `equality_threshold`, and *every* solver oracle whose answers
+    satisfy the store rows and the soft rows (`SatStore`, `SoftOK`): for every store index `j`, all
+    solved priorities `a < b`, every non-critical goal `g` of `a` and every step, the scaled value of
+    `g` in the solution of `b` lies in `hullStep`: the hull of the interval derived from the solution
+    of `a` *without folding* (`unfoldedStep`: achieved epsilon + `violation_relaxation`, goal
+    relaxation, `constraint_relaxation`; fixed value for steps beyond `violation_tolerance`;
+    achieved value for minimisation goals) and of `[v_a - thr/2, v_a + thr/2]` around the value
+    attained at `a` — i.e. the retained bound up to the folding slack `equality_threshold/2` (in
+    scaled units; `× function_nominal` in physical units), see `C02_retained_with_fold_slack` and
+    `C02_retained_target_min_folded`.  Any number of goals may share a function key inside one priority.
+    `Sane`: what validation guarantees, and one nominal per function key (candidate F25 otherwise). -/
+theorem C02_no_degradation {ι : Type} (o : HOpts) (n : ι → Nat) (nomOf : String → Rat)
+    (oracle : (ι → Store) → (ι → List Goal) → Option (ι → Sol)) (prios : List (ι → List Goal))
+    (hvr : 0 ≤ o.violationRelaxation) (hcr : 0 ≤ o.constraintRelaxation)
+    (hthr : 0 ≤ o.equalityThreshold)
+    (hsane : ∀ gs ∈ prios, ∀ j, ∀ g ∈ gs j, g.critical = false → Sane nomOf g)
+    (hfeas : ∀ st gs s, gs ∈ prios → oracle st gs = some s → ∀ j,
+      SatStore nomOf (s j) (st j) ∧
+      ∀ gj g, (gs j)[gj]? = some g → g.critical = false → g.hasTargetBounds = true → ∀ i < n j,
+        SoftOK g (s j) gj i) :
+    NoDegrM o n nomOf (runLoopM o n oracle prios (fun _ => []) []).1 := by
+  apply runLoopM_noDegr o n nomOf oracle prios hthr
+  · intro st gs s hgs ho j
+    obtain ⟨hsat, hsoft⟩ := hfeas st gs s hgs ho j
+    refine ⟨hsat, ?_⟩
+    intro gj g hg hcrit i hi
+    exact stepFacts_of_feasible o nomOf g (s j) gj i hcrit
+      (hsane gs hgs j g (List.mem_of_getElem? hg) hcrit) hvr hcr hthr
+      (fun ht => hsoft gj g hg hcrit ht i hi)
+  · exact fun gs h => h
+  · intro j p hp; cases hp
+  · intro j a b pa pb _ ha; simp at ha
+
+/-- what membership in `hullStep` means: the unfolded retained bounds, loosened by at most
+    `equality_threshold/2` (scaled units) — given that the goal's own solution satisfied them
+    (`hown`, a consequence of feasibility at its own priority, `stepFacts_of_feasible`). -/
+theorem C02_retained_with_fold_slack (o : HOpts) (nomOf : String → Rat) (g : Goal) (sa : Sol) (gj i : Nat)
+    (x : Rat) (hthr : 0 ≤ o.equalityThreshold)
+    (hown : Ivl.mem (scaled nomOf sa (g.fk, i)) (unfoldedStep o g sa gj i))
+    (h : Ivl.mem (EVal.fin x) (hullStep o nomOf g sa gj i)) :
+    subFin (unfoldedStep o g sa gj i).lo (o.equalityThreshold / 2) ≤ EVal.fin x ∧
+    EVal.fin x ≤ addFin (unfoldedStep o g sa gj i).hi (o.equalityThreshold / 2) := by
+  have hd : 0 ≤ o.equalityThreshold / 2 := by linarith
+  obtain ⟨h1, h2⟩ := h
+  simp only [hullStep] at h1 h2
+  constructor
+  · refine le_trans ?_ h1
+    apply le_min (subFin_le _ _ hd)
+    have := subFin_mono _ _ (o.equalityThreshold / 2) hown.1
+    simpa [scaled, ball, subFin] using this
+  · refine le_trans h2 ?_
+    apply max_le (le_addFin _ _ hd)
+    have := addFin_mono _ _ (o.equalityThreshold / 2) hown.2
+    simpa [scaled, ball, addFin] using this
+
+/-- the lower side of a target goal in physical units: every later solution has
+    `f ≥ m_t + (ε + violation_relaxation)(m - m_t) - relaxation - constraint_relaxation·nom
+         - (equality_threshold/2)·nom`, whether or not folding triggered anywhere on the key. -/
+theorem C02_retained_target_min_folded (o : HOpts) (nomOf : String → Rat) (g : Goal) (sa sb : Sol)
+    (gj i : Nat) (tm lo : Rat) (ht : g.hasTargetBounds = true) (hcrit : g.critical = false)
+    (hmin : g.hasMin = true) (htm : g.mAt 0 i = XVal.e (EVal.fin tm)) (hlo : g.loAt 0 = XVal.e (EVal.fin lo))
+    (hnom : g.nomAt 0 = nomOf g.fk) (hpos : 0 < nomOf g.fk) (hthr : 0 ≤ o.equalityThreshold)
+    (hvt : vtFires o (sa.eps gj i + o.violationRelaxation) = false)
+    (hown : Ivl.mem (scaled nomOf sa (g.fk, i)) (unfoldedStep o g sa gj i))
+    (h : Ivl.mem (scaled nomOf sb (g.fk, i)) (hullStep o nomOf g sa gj i)) :
+    tm + (sa.eps gj i + o.violationRelaxation) * (lo - tm) - g.relaxation
+      - o.constraintRelaxation * nomOf g.fk - o.equalityThreshold / 2 * nomOf g.fk ≤ sb.fval g.fk i := by
+  have h1 := (C02_retained_with_fold_slack o nomOf g sa gj i _ hthr hown h).1
+  have hval : targetLo g (sa.eps gj i + o.violationRelaxation) i =
+      EVal.fin (((sa.eps gj i + o.violationRelaxation) * (lo - tm) + tm - g.relaxation) / nomOf g.fk) := by
+    simp [targetLo, hmin, htm, finOr, hcrit, hlo, finVal, hnom]
+  simp only [unfoldedStep, ht, hvt, if_true, Bool.false_eq_true, if_false, hval, subFin,
+    EVal.le_fin_fin] at h1
+  have h2 : ((sa.eps gj i + o.violationRelaxation) * (lo - tm) + tm - g.relaxation) / nomOf g.fk
+      ≤ sb.fval g.fk i / nomOf g.fk + o.constraintRelaxation + o.equalityThreshold / 2 := by linarith
+  have h3 := (div_le_iff₀ hpos).1 h2
+  have h4 : (sb.fval g.fk i / nomOf g.fk + o.constraintRelaxation + o.equalityThreshold / 2) * nomOf g.fk
+      = sb.fval g.fk i + o.constraintRelaxation * nomOf g.fk + o.equalityThreshold / 2 * nomOf g.fk := by
+    field_simp
+  rw [h4] at h3
+  linarith
+
+/-- the one-store loop is the `ι = Unit` instance of the family loop -/
+theorem runLoop_eq_runLoopM_unit (o : HOpts) (n : Nat) (oracle : Store → List Goal → Option Sol) :
+    ∀ (prios : List (List Goal)) (st : Store) (done : List (List Goal × Sol)),
+      ((runLoopM o (fun _ : Unit => n) (fun st gs => (oracle (st ()) (gs ())).map fun s _ => s)
+          (prios.map fun gs _ => gs) (fun _ => st)
+          (done.map fun p => ((fun _ => p.1), (fun _ => p.2)))).1.map fun p => (p.1 (), p.2 ()))
+        = (runLoop o n oracle prios st done).1
+      ∧ (runLoopM o (fun _ : Unit => n) (fun st gs => (oracle (st ()) (gs ())).map fun s _ => s)
+          (prios.map fun gs _ => gs) (fun _ => st)
+          (done.map fun p => ((fun _ => p.1), (fun _ => p.2)))).2
+        = (runLoop o n oracle prios st done).2 := by
+  intro prios
+  induction prios with
+  | nil =>
+    intro st done
+    simp [runLoopM, runLoop, Function.comp_def]
+  | cons gs rest ih =>
+    intro st done
+    simp only [List.map_cons, runLoopM, runLoop]
+    cases ho : oracle (insertCriticals o n st gs) gs with
+    | none => simp [Function.comp_def]
+    | some s =>
+      simp only [Option.map_some]
+      have := ih (convertAll o n s (insertCriticals o n st gs) gs) (done ++ [(gs, s)])
+      simpa using this
+
 /-! ## keep_soft_constraints and single pass: the objective of every solved priority is retained -/
 
 /-- **keep_soft / single pass (append method)**: for every solver oracle whose answers satisfy the
@@ -252,7 +366,7 @@ theorem C02_single_pass_update_no_degradation (fix : Bool) (cr : Rat)
 /-! ## non-vacuity -/
 
 /-- a two-priority run with a concrete oracle: p1 `x ≥ 2` (range (-10, 10)) answered with ε = 1/4
-    (x = -1), p2 minimise x answered with x = -1: the hypotheses of `C02_no_degradation` hold and the
+    (x = -1), p2 minimise x answered with x = -1: the hypotheses of `C02_no_degradation_nofold` hold and the
     retained bound `2 + 1/4·(-12) = -1 ≤ x` is what the second answer meets. -/
 example :
     let g1 : Goal := { fk := "x", tmin := .scalar (.fin 2), rangeLo := [.fin (-10)], rangeHi := [.fin 10],
@@ -263,13 +377,13 @@ example :
     ∧ hardStep {} g2 s1 0 0 = ⟨EVal.ninf, EVal.fin (-1)⟩ := by
   decide +kernel
 
-/-- the hypotheses of `C02_no_degradation` are satisfiable: the run of `Proofs/C02Example.lean`
+/-- the hypotheses of `C02_no_degradation_nofold` are satisfiable: the run of `Proofs/C02Example.lean`
     (a solver that answers the two problems of the run with feasible points) succeeds and the
     theorem applies to it -/
 example : (runLoop {} 1 exOracle [[exG1], [exG2]] [] []).2 = true := by decide +kernel
 
 example : NoDegr {} 1 (fun _ => 1) (runLoop {} 1 exOracle [[exG1], [exG2]] [] []).1 := by
-  apply C02_no_degradation {} 1 (fun _ => 1) exOracle [[exG1], [exG2]] (by decide) (by decide)
+  apply C02_no_degradation_nofold {} 1 (fun _ => 1) exOracle [[exG1], [exG2]] (by decide) (by decide)
   · intro gs hgs g hg _
     simp only [List.mem_cons, List.mem_nil_iff, or_false] at hgs
     rcases hgs with rfl | rfl
@@ -344,6 +458,114 @@ example : NoDegr {} 1 (fun _ => 1) (runLoop {} 1 exOracle [[exG1], [exG2]] [] []
             · simp [EVal.le_def, EVal.le]
           · cases h
         · intro gj g hg _ ht
+          cases gj with
+          | succ j => simp at hg
+          | zero =>
+            simp only [List.getElem?_cons_zero, Option.some.injEq] at hg
+            subst hg
+            cases ht
+      · cases ho
+/-- non-vacuity with folding: in the second run of `Proofs/C02Example.lean` the retained interval
+    `[2, 2 + 1e-9]` is folded to its mid point, the run succeeds, and `C02_no_degradation` applies -/
+example : hardStep {} exF1 exFS1 0 0 = ⟨EVal.fin exC, EVal.fin exC⟩
+    ∧ unfoldedStep {} exF1 exFS1 0 0 = ⟨EVal.fin 2, EVal.fin (2 + 1 / 1000000000)⟩ := by
+  decide +kernel
+
+example : (runLoopM {} (fun _ : Unit => 1) exOracleM [fun _ => [exF1], fun _ => [exF2]] (fun _ => []) []).2
+    = true := by decide +kernel
+
+example : NoDegrM {} (fun _ : Unit => 1) (fun _ => 1)
+    (runLoopM {} (fun _ : Unit => 1) exOracleM [fun _ => [exF1], fun _ => [exF2]] (fun _ => []) []).1 := by
+  apply C02_no_degradation {} (fun _ : Unit => 1) (fun _ => 1) exOracleM _ (by decide) (by decide)
+    (by decide +kernel)
+  · intro gs hgs j g hg _
+    simp only [List.mem_cons, List.mem_nil_iff, or_false] at hgs
+    rcases hgs with rfl | rfl
+    · simp only [List.mem_cons, List.mem_nil_iff, or_false] at hg
+      subst hg
+      refine ⟨rfl, by norm_num, by decide, fun _ => ⟨-10, rfl⟩, fun _ => ⟨10, rfl⟩, ?_, ?_⟩
+      · intro i tm lo h1 h2
+        have : tm = 2 := by
+          have : exF1.mAt 0 i = XVal.e (EVal.fin 2) := rfl
+          rw [this] at h1; injection h1 with h; injection h with h; exact h.symm
+        have hl : lo = -10 := by
+          have : exF1.loAt 0 = XVal.e (EVal.fin (-10)) := rfl
+          rw [this] at h2; injection h2 with h; injection h with h; exact h.symm
+        subst this hl
+        exact ⟨by norm_num, by simp only [qabs, floatMax]; norm_num⟩
+      · intro i tM hi h1 h2
+        have : tM = 2 + 1 / 1000000000 := by
+          have : exF1.MAt 0 i = XVal.e (EVal.fin (2 + 1 / 1000000000)) := rfl
+          rw [this] at h1; injection h1 with h; injection h with h; exact h.symm
+        have hl : hi = 10 := by
+          have : exF1.hiAt 0 = XVal.e (EVal.fin 10) := rfl
+          rw [this] at h2; injection h2 with h; injection h with h; exact h.symm
+        subst this hl
+        exact ⟨by norm_num, by simp only [qabs, floatMax]; norm_num⟩
+    · simp only [List.mem_cons, List.mem_nil_iff, or_false] at hg
+      subst hg
+      refine ⟨rfl, by norm_num, by decide, (fun h => by cases h), (fun h => by cases h), ?_, ?_⟩
+      · intro i tm lo h1 _
+        have : exF2.mAt 0 i = XVal.nan := rfl
+        rw [this] at h1; cases h1
+      · intro i tM hi h1 _
+        have : exF2.MAt 0 i = XVal.nan := rfl
+        rw [this] at h1; cases h1
+  · intro st gs s hgs ho j
+    simp only [exOracleM] at ho
+    split at ho
+    · rename_i h
+      obtain ⟨h1, h2⟩ := h
+      cases ho
+      refine ⟨by intro k e h; rw [h1] at h; simp [Store.get] at h, ?_⟩
+      intro gj g hg _ _ i hi
+      have hi0 : i = 0 := by omega
+      subst hi0
+      rw [h2] at hg
+      cases gj with
+      | succ j => simp at hg
+      | zero =>
+        simp only [List.getElem?_cons_zero, Option.some.injEq] at hg
+        subst hg
+        refine ⟨?_, ?_⟩
+        · intro tm lo _ h1 h2
+          have : tm = 2 := by
+            have : exF1.mAt 0 0 = XVal.e (EVal.fin 2) := rfl
+            rw [this] at h1; injection h1 with h; injection h with h; exact h.symm
+          have hl : lo = -10 := by
+            have : exF1.loAt 0 = XVal.e (EVal.fin (-10)) := rfl
+            rw [this] at h2; injection h2 with h; injection h with h; exact h.symm
+          subst this hl
+          simp only [softRow, qabs, floatMax, exFS1, exF1, Goal.nomAt, getB]
+          norm_num
+        · intro tM hi' _ h1 h2
+          have : tM = 2 + 1 / 1000000000 := by
+            have : exF1.MAt 0 0 = XVal.e (EVal.fin (2 + 1 / 1000000000)) := rfl
+            rw [this] at h1; injection h1 with h; injection h with h; exact h.symm
+          have hl : hi' = 10 := by
+            have : exF1.hiAt 0 = XVal.e (EVal.fin 10) := rfl
+            rw [this] at h2; injection h2 with h; injection h with h; exact h.symm
+          subst this hl
+          simp only [softRow, qabs, floatMax, exFS1, exF1, Goal.nomAt, getB]
+          norm_num
+    · split at ho
+      · rename_i h
+        obtain ⟨h1, h2⟩ := h
+        cases ho
+        refine ⟨?_, ?_⟩
+        · intro k e h
+          rw [h1] at h
+          simp only [Store.get, exFSt1, List.lookup_cons, List.lookup_nil] at h
+          split at h
+          · cases h
+            rename_i hk
+            have : k = ("x", 0) := by simpa using hk
+            subst this
+            simp only [Ivl.mem, scaled, exFS2, EVal.le_fin_fin]
+            constructor <;> norm_num
+          · cases h
+        · intro gj g hg _ ht
+          rw [h2] at hg
           cases gj with
           | succ j => simp at hg
           | zero =>
